@@ -95,6 +95,10 @@ def export_format(subtree, **params):
                subtree.data['edge'],
                subtree.parent.data['num'])
     else:
+        if subtree.data['lemma'] == None:
+            subtree.data['lemma'] = "--"
+        if subtree.data['morph'] == None:
+            subtree.data['morph'] = "--"
         return u"%s%s%s%s%s\t%s%s%s\t%d\n" \
             % (subtree.data['word'],
                export_tabs(len(subtree.data['word'])),
@@ -281,6 +285,8 @@ def tigerxml(tree, stream, **params):
     for terminal in trees.terminals(tree):
         stream.write(u"    <t id=\"%d\" " % terminal.data['num'])
         for field in ['word', 'lemma', 'label', 'morph']:
+            if terminal.data[field] is None:
+                terminal.data[field] = "--"
             terminal.data[field] = quoteattr(terminal.data[field])
         stream.write(u"%s=%s " % ('word', terminal.data['word']))
         stream.write(u"%s=%s " % ('lemma', terminal.data['lemma']))
@@ -296,7 +302,9 @@ def tigerxml(tree, stream, **params):
                             quoteattr(subtree.data['label'])))
             for child in trees.children(subtree):
                 stream.write(u"      <edge label=%s idref=\"%d\" />\n"
-                             % (quoteattr(child.data['edge']),
+                             % (quoteattr(child.data['edge']
+                                          if child.data['edge'] is not None
+                                          else trees.DEFAULT_EDGE),
                                 child.data['num']))
             stream.write(u"    </nt>\n")
     stream.write(u"  </nonterminals>\n")
